@@ -15,6 +15,7 @@ type C14Case struct {
 	Format string `json:"format"` // gob | npy | csv | pb | fb
 	DT     string `json:"dt"`
 	A      Opnd   `json:"a"`
+	Then   string `json:"then,omitempty"` // the decoded tensor is written and read once more in this format
 }
 
 func init() { register("C14.roundtrip", func() Case { return &C14Case{} }) }
@@ -24,7 +25,7 @@ func (c *C14Case) NTKey() string {
 	if c.A.L.IsContig() && !c.A.L.IsCM() && c.A.Mask == nil && len(c.A.Shape) == 2 && d.IsFloat() {
 		return ""
 	}
-	return fmt.Sprintf("%s|%s|%v|%v|%v", c.Format, c.DT, c.A.Shape, c.A.L, c.A.Mask != nil)
+	return fmt.Sprintf("%s|%s|%v|%v|%v|%s", c.Format, c.DT, c.A.Shape, c.A.L, c.A.Mask != nil, c.Then)
 }
 
 // formatAccepts: the element types each format documents.
@@ -44,6 +45,84 @@ func npyEquivalent(a, b tensor.Dtype) bool {
 	}
 	eq := func(x, y, p, q tensor.Dtype) bool { return (x == p && y == q) || (x == q && y == p) }
 	return eq(a, b, tensor.Int, tensor.Int64) || eq(a, b, tensor.Uint, tensor.Uint64)
+}
+
+func c14Encode(format string, t *tensor.Dense) (enc []byte, err error) {
+	switch format {
+	case "gob":
+		return t.GobEncode()
+	case "npy":
+		var buf bytes.Buffer
+		err = t.WriteNpy(&buf)
+		return buf.Bytes(), err
+	case "csv":
+		var buf bytes.Buffer
+		err = t.WriteCSV(&buf)
+		return buf.Bytes(), err
+	case "pb":
+		return t.PBEncode()
+	case "fb":
+		return t.FBEncode()
+	}
+	panic("HARNESS: unknown format " + format)
+}
+
+func c14Decode(format string, enc []byte, d DT) (dec *tensor.Dense, err error) {
+	dec = new(tensor.Dense)
+	switch format {
+	case "gob":
+		err = dec.GobDecode(enc)
+	case "npy":
+		err = dec.ReadNpy(bytes.NewReader(enc))
+	case "csv":
+		err = dec.ReadCSV(bytes.NewReader(enc), tensor.As(d.T))
+	case "pb":
+		err = dec.PBDecode(enc)
+	case "fb":
+		err = dec.FBDecode(enc)
+	default:
+		panic("HARNESS: unknown format " + format)
+	}
+	return
+}
+
+// c14Content compares a decoded tensor with the logical array it must hold, up to the
+// representation limits of the format (CSV knows no rank; npy widens int/uint).
+func c14Content(dec *tensor.Dense, format string, d DT, want Arr) string {
+	if format == "npy" {
+		if !npyEquivalent(dec.Dtype(), d.T) {
+			return fmt.Sprintf("decoded element type %v", dec.Dtype())
+		}
+	} else if dec.Dtype() != d.T {
+		return fmt.Sprintf("decoded element type %v", dec.Dtype())
+	}
+	ds := []int(dec.Shape())
+	if !eqInts(ds, want.Shape) {
+		if (format == "csv" && prod(ds) == prod(want.Shape) && tensor.Shape(ds).Eq(tensor.Shape(want.Shape))) || (prod(want.Shape) == 1 && prod(ds) == 1) || (prod(ds) == prod(want.Shape) && tensor.Shape(ds).Eq(tensor.Shape(want.Shape))) {
+			want = Arr{DT: want.DT, Shape: ds, E: want.E}
+		} else {
+			return fmt.Sprintf("decoded shape %v, expected %v", ds, want.Shape)
+		}
+	}
+	exp := Arr{DT: want.DT, Shape: want.Shape, E: append([]interface{}{}, want.E...)}
+	if format == "npy" && dec.Dtype() != d.T {
+		for k, v := range exp.E {
+			switch x := v.(type) {
+			case int64:
+				exp.E[k] = int(x)
+			case uint64:
+				exp.E[k] = uint(x)
+			case int:
+				exp.E[k] = int64(x)
+			case uint:
+				exp.E[k] = uint64(x)
+			}
+		}
+	}
+	if m := compareAt(dec, exp, bitEqVal); m != "" {
+		return "decoded " + m
+	}
+	return ""
 }
 
 func (c *C14Case) Run() string {
@@ -86,6 +165,18 @@ func (c *C14Case) Run() string {
 		return "" // a refusal is allowed; writing different data is not
 	}
 	rec.Class("encoded:" + c.Format)
+	// another tensor is encoded before the first encoding is read back: the bytes handed out are the caller's
+	var other Arr
+	var otherEnc []byte
+	if formatAccepts(c.Format, d) && d.Name != "unsafe.Pointer" {
+		other = seqArr(d, []int{2, 3}, 41)
+		if ob, err := Build(other, Layout{Root: "rm"}, nil); err == nil {
+			var oerr error
+			if p := try(func() { otherEnc, oerr = c14Encode(c.Format, ob.T) }); p != "" || oerr != nil {
+				otherEnc = nil
+			}
+		}
+	}
 	dec := new(tensor.Dense)
 	var derr error
 	pan = try(func() {
@@ -186,6 +277,37 @@ func (c *C14Case) Run() string {
 			}
 		}
 	}
+	if otherEnc != nil {
+		var odec *tensor.Dense
+		var oerr error
+		if p := try(func() { odec, oerr = c14Decode(c.Format, otherEnc, d) }); p != "" || oerr != nil {
+			return desc + fmt.Sprintf(": a second tensor encoded in between cannot be decoded: %v %v", p, oerr)
+		}
+		if m := c14Content(odec, c.Format, d, other); m != "" {
+			return desc + ": a second tensor encoded in between: " + m
+		}
+	}
+	// the decoded tensor is a tensor like any other: written out again (in another format) it still
+	// holds the same array
+	if c.Then != "" && c.A.Mask == nil && formatAccepts(c.Then, d) && (c.Format != "npy" || dec.Dtype() == d.T) {
+		var enc2 []byte
+		var e2 error
+		if p := try(func() { enc2, e2 = c14Encode(c.Then, dec) }); p != "" {
+			return desc + fmt.Sprintf(": encoding the decoded tensor as %s panicked: %s", c.Then, p)
+		}
+		if e2 != nil {
+			rec.Class("chain-refused:" + c.Then)
+			return ""
+		}
+		var dec2 *tensor.Dense
+		if p := try(func() { dec2, e2 = c14Decode(c.Then, enc2, d) }); p != "" || e2 != nil {
+			return desc + fmt.Sprintf(": the decoded tensor was encoded as %s but that cannot be decoded: %v %v", c.Then, p, e2)
+		}
+		rec.Class("chain:" + c.Format + ">" + c.Then)
+		if m := c14Content(dec2, c.Then, d, exp); m != "" {
+			return desc + fmt.Sprintf(": then written as %s and read back: %s", c.Then, m)
+		}
+	}
 	return ""
 }
 
@@ -210,6 +332,9 @@ func genC14(rt *rapid.T, format string, d DT, lk string, masked bool) *C14Case {
 	c.A = genOpnd(rt, shape, lk, lo, hi, sp, "a")
 	if d.Name == "string" {
 		c.A.Codes = genCodes(rt, prod(shape), 0, 9, 50, "sv")
+	}
+	if !masked && rapid.IntRange(0, 2).Draw(rt, "chain") == 0 {
+		c.Then = rapid.SampledFrom([]string{"gob", "npy", "csv", "pb", "fb"}).Draw(rt, "then")
 	}
 	if masked {
 		c.A.L = Layout{Root: c.A.L.Root}
@@ -247,7 +372,7 @@ func TestC14(t *testing.T) {
 // inF47: CSV of a single-column string matrix with an empty string: encoding/csv
 // writes a record consisting of one empty field as a blank line, which its reader skips.
 func avoidC14Regions(c *C14Case) *C14Case {
-	if c.Format == "csv" && c.DT == "string" && len(c.A.Shape) == 2 && c.A.Shape[1] == 1 {
+	if (c.Format == "csv" || c.Then == "csv") && c.DT == "string" && (len(c.A.Shape) <= 1 || c.A.Shape[len(c.A.Shape)-1] == 1 || prod(c.A.Shape) == 1) {
 		for i, code := range c.A.Codes {
 			if code >= 1000 && decode(dtStr, code) == "" {
 				rec.Class("excluded:F47")
